@@ -55,3 +55,6 @@ func VerifDecompressReader(r io.Reader) io.ReadCloser                { return de
 
 const VerifMaxControlFramePayloadSize = maxControlFramePayloadSize
 const VerifFlateReaderTail = flateReaderTail
+
+// VerifTruncWriter: the writer compressWriter puts between flate.Writer and its destination.
+func VerifTruncWriter(w io.WriteCloser) io.Writer { return &truncWriter{w: w} }
